@@ -751,7 +751,7 @@ fn session_pure_op(ctx: &mut Ctx, sc: &Session, i: usize, op: &SOp, pool_v: &mut
                 .max(deviation(a.pressure(Contributions::Total).to_reduced(), p.to_reduced(), 1e-300));
                 ctx.out.max("dev.nph.spec", dspec);
                 if !(dspec <= 1e-6) {
-                    ctx.out.violate("state-mismatch", "nph:specification", format!("op {i} new_nph/nps of {} (entropy {entropy}) from T0 = {ti} T: returned (T,rho)=({},{}) misses the specification by {dspec:e}", sys.name, a.temperature, a.density));
+                    ctx.out.violate("state-mismatch", "nph:specification", format!("op {i} new_nph/nps of {} (entropy {entropy}) from T0 = {ti} T: returned (T,rho)=({},{}) misses the specification by {dspec:e}: p = {} (specified {p}), s = {} h = {} (state the specification was taken from: s = {} h = {})", sys.name, a.temperature, a.density, a.pressure(Contributions::Total), a.molar_entropy(Contributions::Total), a.molar_enthalpy(Contributions::Total), s0.molar_entropy(Contributions::Total), s0.molar_enthalpy(Contributions::Total)));
                 } else if !(d <= 1e-7) {
                     if a.temperature.to_reduced() < 0.45 * sys.tc {
                         // another exact solution of the same (p, s) or (p, h) on the model's unphysical
